@@ -122,6 +122,10 @@ def _make_proc_body(i, awaits, oc, outs):
         call = (i, tuple(a), tuple(sorted((int(k[1:]), v) for k, v in kw.items())))
         self._trace.append(call)
         sorted(self.inputs.keys())      # every step consults its (possibly empty) parsed inputs, which must have been restored
+        journal = self.inputs.get('journal')
+        if journal is not None:
+            journal.append(i)
+            self.out(f'j{i}', len(journal))
         nested = self.inputs.get('ns')
         if nested is not None:          # ... and reads a nested input namespace attribute-style, as `self.inputs.ns.d0`
             for key in sorted(nested.keys()):
@@ -159,6 +163,9 @@ def build_proc(prog):
             spec.input('a', required=False)      # no defaults at all: a process started without inputs has EMPTY parsed inputs
         else:
             spec.input('a', default=5)
+            # a CALLABLE default returning a fresh mutable object: evaluated once, at construction; what the steps put into it
+            # is part of the process's inputs from then on and must survive a checkpoint (not be re-evaluated on load)
+            spec.input('journal', default=list)
         spec.input('b', required=False)
         spec.input_namespace('ns', dynamic=True, required=False)
         spec.outputs.dynamic = True
